@@ -39,7 +39,7 @@ ASSUMPTIONS = [
     "for output formats that carry no atomic positions a permuted/duplicated/stale delivery is undetectable by design; only count and truncation faults are asserted there",
     "cp2k (needs cp2k-input-tools) and crystal's structure round trip (its reader parses CRYSTAL output, not the input its writer produces) are excluded from the file-level steps; wien2k takes part with structure files only; all unit sets are still checked",
 ]
-FAULT_KINDS = ["permute", "duplicate", "missing", "extra", "truncate", "stale"]
+FAULT_KINDS = ["permute", "duplicate", "missing", "extra", "truncate", "stale", "relaxation"]
 
 _E = None
 
@@ -69,7 +69,7 @@ def n_runs(tier):
 
 def gen_spec(seed, index, tier):
     rng = core.rng_of(seed, "c17")
-    calcs = peers.ALL_CALCULATORS
+    calcs = peers.ALL_CALCULATORS + ["vasp", "vasp"]  # vasp is the one format whose output carries positions: more delivery runs
     calc = calcs[index % len(calcs)] if rng.random() < 0.8 else rng.choice(calcs)
     names = ["nacl_prim", "cscl", "hcp", "bct", "tric", "mono", "wurtzite", "rutile_mixed", "nacl_mixed_out", "ortho_c", "rhombo_hex", "nacl", "si", "rutile", "perovskite"]
     w = World.generate(seed, names=names, max_atoms=rng.choice([8, 16, 16, 24]))
@@ -77,6 +77,8 @@ def gen_spec(seed, index, tier):
     faults = []
     if faulty:
         faults = sorted(rng.sample(FAULT_KINDS, rng.randint(1, 2)))
+        if calc == "vasp" and rng.random() < 0.3:
+            faults = ["relaxation"]
     return dict(seed=seed, world=w.spec, calc=calc, faults=faults, fault_seed=rng.getrandbits(32), with_born=rng.random() < 0.6,
                 distance=rng.choice([None, 0.03]), is_plusminus=rng.choice(["auto", True]))
 
@@ -299,6 +301,30 @@ def child_units_only(args):
     ph.force_constants = fc_model / peers.fc_unit(calc)
     ph.run_qpoints(PROBES, nac_q_direction=[1, 0, 0])
     out["freq"] = np.array(ph.get_qpoints_dict()["frequencies"])
+    # force-constant unit table: label of this calculator, conversion factors from every documented label, and the
+    # hdf5 route that applies them (a file labelled in another calculator's unit, read for this calculator)
+    from phonopy.cui.load_helper import read_force_constants_from_hdf5
+    from phonopy.file_IO import write_force_constants_to_hdf5
+    from phonopy.interface.calculator import get_force_constant_conversion_factor
+
+    conv = {}
+    out["fc_label"] = units["force_constants_unit"]
+    for lab in sorted(peers.LABEL_VALUE):
+        try:
+            conv[lab] = float(get_force_constant_conversion_factor(lab, calc))
+        except Exception as e:  # noqa: BLE001
+            conv[lab] = "%s: %s" % (type(e).__name__, e)
+    out["fc_conv"] = conv
+    import tempfile
+
+    src = sorted(peers.FC_LABEL)[spec["seed"] % len(peers.FC_LABEL)]
+    with tempfile.TemporaryDirectory(prefix="c17h-", dir=os.environ.get("TMPDIR", "/tmp")) as td:
+        fn = os.path.join(td, "fc.hdf5")
+        small = np.ascontiguousarray(fc_model[: min(4, len(fc_model)), : min(4, len(fc_model))])
+        write_force_constants_to_hdf5(small / peers.fc_unit(src), filename=fn, physical_unit=peers.FC_LABEL[src])
+        got = read_force_constants_from_hdf5(filename=fn, calculator=calc)
+        out["hdf5_src"] = src
+        out["hdf5_err"] = float(np.max(np.abs(got - small / peers.fc_unit(calc)))) / max(1e-300, float(np.max(np.abs(small / peers.fc_unit(calc)))))
     return out
 
 
@@ -362,6 +388,14 @@ def execute(spec):
     d, sc = cmp_freq(uo["freq"], ref)
     if d > 1e-5 * sc:
         V("units-inconsistent", "%s:%s" % (calc, "with-NAC" if uo["born"] is not None else "no-NAC"), maxdiff_eig=d, scale=sc, freq=uo["freq"][3].tolist(), ref=ref[3].tolist(), nac_factor=uo["nac_factor"])
+    if uo["fc_label"] != peers.FC_LABEL[calc]:
+        V("units-inconsistent", "%s:force-constant-unit-label" % calc, phonopy=uo["fc_label"], documented=peers.FC_LABEL[calc])
+    for lab, got in uo["fc_conv"].items():
+        want = peers.LABEL_VALUE[lab] / peers.fc_unit(calc)
+        if not isinstance(got, float) or abs(got - want) > 1e-6 * want:
+            V("units-inconsistent", "%s:fc-conversion-from:%s" % (calc, lab), phonopy=got, expected=want)
+    if uo["hdf5_err"] > 1e-6:
+        V("units-inconsistent", "%s:hdf5-unit-conversion-from:%s" % (calc, peers.FC_LABEL[uo["hdf5_src"]]), rel_err=uo["hdf5_err"])
     probes["unit_table_run:%s" % calc] = 1
     log.append(("units", calc, core.digest(np.round(uo["freq"], 6))))
 
@@ -436,6 +470,30 @@ def execute(spec):
                                 victim = files[frng.randrange(len(files))]
                                 peers.truncate_in_force_block(calc, victim)
                                 fired.append(k)
+                            elif k == "relaxation" and files and calc == "vasp":
+                                # the job was (wrongly) run as a relaxation: the output holds a second ionic step whose atoms
+                                # moved away from the displaced geometry, with that step's forces
+                                j = frng.randrange(len(files))
+                                idx = outputs.index(files[j]) if files[j] in outputs else 0
+                                fnj = displaced_file_for(calc, p1["new_files"], idx + 1)
+                                with contextlib.redirect_stdout(io.StringIO()):
+                                    rcj, _ = peers.read_structure(calc, fnj)
+                                ok_, how_, order_ = same_crystal(sup["lattice"], sup["positions"], sup["symbols"], rcj.cell, rcj.scaled_positions, rcj.symbols, tol=0.2)
+                                if order_ is not None:
+                                    F1, _ = peers.harmonic_forces_for_file(rcj, ideal_A, p1["fc_model"], L)
+                                    ideal_f = np.array(sup["positions"])[order_]
+                                    dpos = np.array(rcj.scaled_positions) - ideal_f
+                                    dpos -= np.rint(dpos)
+                                    first_pos = np.array(rcj.scaled_positions)
+                                    moved = ideal_f + 0.35 * dpos + 0.004
+                                    rc2 = rcj.copy()
+                                    rc2.scaled_positions = moved
+                                    F2, _ = peers.harmonic_forces_for_file(rc2, ideal_A, p1["fc_model"], L)
+                                    rcj.scaled_positions = first_pos
+                                    name_ = "relaxed-output"
+                                    peers.write_force_output(calc, name_, rcj, F1, energy=-77.0, later_steps=[(moved, F2)])
+                                    files[j] = name_
+                                    fired.append(k)
                             elif k == "stale" and files:
                                 # output left over from an earlier displacement set (3x larger displacements)
                                 j = frng.randrange(len(files))
